@@ -21,6 +21,7 @@ package netflow9
 //@     && h.SysUpTime == be32(b, p+4) && h.UNIXSecs == be32(b, p+8) && h.SeqNum == be32(b, p+12) && h.SrcID == be32(b, p+16)
 
 //@ func (*PacketHeader).unmarshal
+//@   names h r _ err
 //@   requires rdr(r)
 //@   ensures inv(r) && r.base == old(r.base) && r.count >= old(r.count)
 //@   ensures old(len(r.data)) >= 20 ==> err == nil && r.count == old(r.count) + 20 && phdrAt(h, r.base, old(r.count))
@@ -28,9 +29,11 @@ package netflow9
 //@   modifies h, r.data, r.count
 
 //@ func (*PacketHeader).validate
+//@   names h _
 //@   ensures err == nil <==> h.Version == 9
 
 //@ func (*SetHeader).unmarshal
+//@   names h r _ err
 //@   requires rdr(r)
 //@   ensures inv(r) && r.base == old(r.base) && r.count >= old(r.count)
 //@   ensures old(len(r.data)) >= 4 ==> err == nil && r.count == old(r.count) + 4 && h.FlowSetID == be16(r.base, old(r.count)) && h.Length == be16(r.base, old(r.count)+2)
@@ -38,6 +41,7 @@ package netflow9
 //@   modifies h, r.data, r.count
 
 //@ func (*TemplateHeader).unmarshal
+//@   names t r _ err
 //@   requires rdr(r)
 //@   ensures inv(r) && r.base == old(r.base) && r.count >= old(r.count)
 //@   ensures old(len(r.data)) >= 4 ==> err == nil && r.count == old(r.count) + 4 && t.TemplateID == be16(r.base, old(r.count)) && t.FieldCount == be16(r.base, old(r.count)+2)
@@ -45,6 +49,7 @@ package netflow9
 //@   modifies t, r.data, r.count
 
 //@ func (*TemplateHeader).unmarshalOpts
+//@   names t r _ err
 //@   requires rdr(r)
 //@   ensures inv(r) && r.base == old(r.base) && r.count >= old(r.count)
 //@   ensures old(len(r.data)) >= 6 ==> err == nil && r.count == old(r.count) + 6 && t.TemplateID == be16(r.base, old(r.count))
@@ -53,6 +58,7 @@ package netflow9
 //@   modifies t, r.data, r.count
 
 //@ func (*TemplateFieldSpecifier).unmarshal
+//@   names f r _ err
 //@   requires rdr(r)
 //@   ensures inv(r) && r.base == old(r.base) && r.count >= old(r.count)
 //@   ensures old(len(r.data)) >= 4 ==> err == nil && r.count == old(r.count) + 4 && f.ElementID == be16(r.base, old(r.count)) && f.Length == be16(r.base, old(r.count)+2)
@@ -64,6 +70,7 @@ package netflow9
 //@     && fs[len(before)].ElementID == be16(r.base, c0) && fs[len(before)].Length == be16(r.base, c0+2) && r.count == c0 + 4
 
 //@ func (*TemplateRecord).unmarshal
+//@   names tr r _ th tf err i
 //@   requires rdr(r)
 //@   ensures inv(r) && r.base == old(r.base) && r.count >= old(r.count)
 //@   ensures err == nil ==> r.count == old(r.count) + 4 + 4*tr.FieldCount && tr.TemplateID == be16(r.base, old(r.count)) && tr.FieldCount == be16(r.base, old(r.count)+2)
@@ -80,6 +87,7 @@ package netflow9
 //@     decreases i
 
 //@ func (*TemplateRecord).unmarshalOpts
+//@   names tr r _ th tf err i i
 //@   requires rdr(r)
 //@   ensures inv(r) && r.base == old(r.base) && r.count >= old(r.count)
 //@   ensures err == nil ==> r.count >= old(r.count) + 6 && tr.TemplateID == be16(r.base, old(r.count))
@@ -103,6 +111,7 @@ package netflow9
 //@     && f.Value == interpU(r.base.arr, r.base.off + c0, fs.Length, m.Type)
 
 //@ func (*Decoder).decodeData
+//@   names d tr _ _ fields err b r startCount i m ok i m ok
 //@   requires rdr(d.reader)
 //@   ensures rdr(d.reader) && d.reader.base == old(d.reader.base) && d.raddr == old(d.raddr) && d.reader.count >= old(d.reader.count)
 //@   ensures err == nil ==> len(result) == len(tr.ScopeFieldSpecifiers) + len(tr.FieldSpecifiers)
@@ -126,6 +135,7 @@ package netflow9
 
 //@ uninterp specMinRec9(tr TemplateRecord) mathint
 //@ func (TemplateRecord).minRecordLen
+//@   names tr _ n _ f _ f
 //@   ensures result >= 1
 //@   ensures [trusted.def] result == specMinRec9(tr)
 //@   loop 1
@@ -134,12 +144,14 @@ package netflow9
 //@     invariant 0 <= n && n <= 65535 * (len(tr.ScopeFieldSpecifiers) + range_i)
 
 //@ func NewDecoder
+//@   names raddr b _
 //@   opt borrows b
 //@   ensures result != nil && result.raddr == raddr && rdr(result.reader) && result.reader.base == b && result.reader.count == 0
 
 // C09: a set is either consumed wholly (count advanced by at least its declared length; exactly when
 // no record overran the set) or the error is fatal and Decode returns nil.
 //@ func (*Decoder).decodeSet
+//@   names d mem msg _ startCount setHeader err tr err ok minLen setId tr data leftoverBytes _ skipErr
 //@   callassert insert: sameview(arg1, d.raddr) && arg0 == arg2.TemplateID
 //@   callassert insert: setHeader.FlowSetID == 0 ==> len(arg2.FieldSpecifiers) == arg2.FieldCount && len(arg2.ScopeFieldSpecifiers) == 0   // exactly the specifiers of this template record
 //@   callassert retrieve: arg0 == setHeader.FlowSetID && sameview(arg1, d.raddr)
@@ -174,6 +186,7 @@ package netflow9
 //@     decreases len(d.reader.data) + (err == nil ? 1 : 0)
 
 //@ func (*Decoder).Decode
+//@   names d mem _ _ msg err err decodeErrors err
 //@   opt borrows d
 //@   requires rdr(d.reader) && d.reader.count == 0 && len(d.reader.base) <= 65535 && wellFormed9(mem)
 //@   ensures (len(old(d.reader.base)) < 20 || be16(old(d.reader.base), 0) != 9) ==> result == nil && err != nil
@@ -191,6 +204,7 @@ package netflow9
 //@     decreases len(d.reader.data)
 
 //@ func combineErrors
+//@   names errorSlice err errMsg _ subError
 //@   requires forall i :: 0 <= i && i < len(errorSlice) ==> errorSlice[i] != nil
 //@   ensures len(errorSlice) == 0 ==> err == nil
 //@   ensures len(errorSlice) > 0 ==> err != nil
@@ -198,6 +212,7 @@ package netflow9
 //@     invariant true
 
 //@ func (MemCache).getShard
+//@   names m id addr _ _ b key hash hSum32
 //@   requires wellFormed9(m)
 //@   ensures result != nil && !result.Templates.isnil
 //@   ensures [key] (len(addr) == 4 || len(addr) == 16) ==> result1 == fnvKey9(addr, id)   // the map key is FNV-1 32 of the address octets followed by the big-endian id
@@ -205,6 +220,7 @@ package netflow9
 //@   ensures [shard] result == m.arr[m.off + result1 % 32]
 
 //@ func (*MemCache).insert
+//@   names m id addr tr shard key
 //@   requires m != nil && wellFormed9(m)
 //@   ensures wellFormed9(m) && len(m) == old(len(m))
 //@   ensures [trusted.view] cacheHas9(m, addr, id) && cacheGet9(m, addr, id) == tr
@@ -212,6 +228,7 @@ package netflow9
 //@   modifies contents(m)
 
 //@ func (*MemCache).retrieve
+//@   names m id addr _ _ shard key v ok
 //@   requires m != nil && wellFormed9(m)
 //@   ensures [view] result1 == cacheHas9(m, addr, id) && (result1 ==> result == cacheGet9(m, addr, id))
 
@@ -223,6 +240,7 @@ package netflow9
 //@ pred jsKey(j ghost.JSON) = (j.Ph == 2 || j.Ph == 3) && jstop(j) == 1 && j.Dp >= 1 && j.Dp <= 2 && jscanon(j)
 
 //@ func (*Message).JSONMarshal
+//@   names m b _ _ err
 //@   opt borrows b
 //@   opt json
 //@   requires b != nil && b.js.Ph == 0 && b.js.Dp == 0 && jscanon(b.js) && jssafe(m.AgentID)
@@ -230,6 +248,7 @@ package netflow9
 //@   modifies b
 
 //@ func (*Message).encodeAgent
+//@   names m b
 //@   opt json
 //@   requires b != nil && jsKey(b.js) && jssafe(m.AgentID)
 //@   ensures b.js == jsset(old(b.js), 3)
@@ -237,6 +256,7 @@ package netflow9
 //@   modifies b
 
 //@ func (*Message).encodeHeader
+//@   names m b
 //@   opt json
 //@   requires b != nil && jsKey(b.js)
 //@   ensures b.js == jsset(old(b.js), 3)
@@ -249,6 +269,7 @@ package netflow9
 //@   modifies b
 
 //@ func (*Message).encodeDataSet
+//@   names m b _ length dsLength err i j
 //@   opt json
 //@   requires b != nil && jsKey(b.js)
 //@   ensures err == nil ==> b.js == jsset(old(b.js), 5)
@@ -262,12 +283,14 @@ package netflow9
 //@     invariant b.js == jsset(pre(b.js), range_i == 0 ? 1 : (range_i < len(m.DataSets[i]) ? 0 : 5)) && pre(b.js).Dp >= 1 && pre(b.js).Dp <= 4 && jstop(pre(b.js)) == 2
 
 //@ func (*Message).encodeDataSetFlat
+//@   names m b _ length dsLength err i j
 //@   requires b != nil
 //@   opt noverify flat encoding is not used by any worker
 //@   modifies b
 
 // the value of one decoded field: a number for the numeric types (exact), quoted text otherwise
 //@ func (*Message).writeValue
+//@   names m b i j _ f f s err
 //@   opt json
 //@   requires b != nil && 0 <= i && i < len(m.DataSets) && 0 <= j && j < len(m.DataSets[i])
 //@   requires b.js.Ph == 0 && b.js.Dp >= 1 && b.js.Dp <= 5 && jscanon(b.js)
@@ -283,6 +306,7 @@ package netflow9
 // the result is either the cache decoded from the file or a fresh cache without templates
 //@ pred allEmpty9(m MemCache) = forall j :: m.off <= j && j < m.off + len(m) ==> m.arr[j] != nil && len(m.arr[j].Templates) == 0
 //@ func GetCache
+//@   names cacheFile _ mem err b m i
 //@   exitassert [loadedOrEmpty] sameview(result, mem.Cache) || allEmpty9(result)
 //@   opt nolock the cache being loaded or built is not shared before GetCache returns
 //@   opt replayprobe result.retrieve(300, net.IP{10, 0, 0, 1})
@@ -293,6 +317,7 @@ package netflow9
 //@     decreases 32 - i
 
 //@ func (MemCache).valid
+//@   names m _ _ shard
 //@   opt nolock called from GetCache on a cache that is not shared yet
 //@   ensures result ==> wellFormed9(m)
 //@   loop 1
@@ -300,6 +325,7 @@ package netflow9
 
 // Dump marshals every shard by reflection: all shards must be read-locked across json.Marshal (C10, C15)
 //@ func (MemCache).Dump
+//@   names m cacheFile _ _ shard b err _ shard
 //@   requires wellFormed9(m)
 //@   loop 1
 //@     acquires m R
